@@ -233,6 +233,18 @@ func c18CheckBigWrite(c c18BigWrite) engine.Result {
 		}
 	}
 	c18Content(&res, "Write|large-slice|packets", &spw, 0, data, desc)
+	// the same slice with 1, 50 or 187 bytes more: rejected as a whole, nothing delivered, however long it is
+	if c.Fail < 0 {
+		for _, extra := range []int{1, 50, 187} {
+			spw.Reset(-1)
+			long := c18BigStream[:c.Packets*188+extra]
+			res.Evals++
+			n3, err3 := w.Write(long)
+			if err3 != gots.ErrInvalidPacketLength || spw.Calls != 0 || n3 != 0 {
+				res.Failf("Write|large-slice|not-multiple-of-188", "%s.Write of %d bytes (%d packets + %d bytes): n=%d err=%v, %d deliveries; want 0, ErrInvalidPacketLength, none", c18Adapters[c.Adapter], len(long), c.Packets, extra, n3, err3, spw.Calls)
+			}
+		}
+	}
 	// a second, short Write through the same adapter comes out as from a fresh one
 	spw.Reset(-1)
 	n2, err2 := w.Write(c18Stream[:2*188])
@@ -737,7 +749,7 @@ func init() {
 		},
 		&engine.Enum[c18BigWrite]{
 			Name: "write-large-slices",
-			Rule: "one Write of k pairwise distinct packets for k in {8, 64, 255..257, 348, 349, 511..513, 1023..1025, 1500, 2047..2049, 4096} (thorough also every power of two +-1 up to 4096 and 4100; next to 64 KiB and to 2^8..2^12 packets, where an implementation may switch to a bulk path) through every adapter x failing packet write at no index and at index 0, 1, 2, k/2, k-3, k-2, k-1 (error value and reported count rotating): same oracle as write-all-lengths — the writer's error, NO delivery after the failing one, deliveries byte-equal and in order — followed by a two-packet Write through the same adapter",
+			Rule: "one Write of k pairwise distinct packets for k in {8, 64, 255..257, 348, 349, 511..513, 1023..1025, 1500, 2047..2049, 4096} (thorough also every power of two +-1 up to 4096 and 4100; next to 64 KiB and to 2^8..2^12 packets, where an implementation may switch to a bulk path) through every adapter x failing packet write at no index and at index 0, 1, 2, k/2, k-3, k-2, k-1 (error value and reported count rotating): same oracle as write-all-lengths — the writer's error, NO delivery after the failing one, deliveries byte-equal and in order — followed by a two-packet Write through the same adapter; each length also with 1, 50 and 187 bytes more: rejected whole, nothing delivered",
 			Gen: func(r *engine.Run, emit func(c18BigWrite)) {
 				ks := []int{8, 64, 255, 256, 257, 348, 349, 511, 512, 513, 1023, 1024, 1025, 1500, 2047, 2048, 2049, 4096}
 				if r.Thorough() {
